@@ -60,6 +60,18 @@ pub fn run(rep: &mut Report) {
                     let mut b: Vec<u64> = ids[ao..].to_vec();
                     shuffle(&mut a, rng);
                     shuffle(&mut b, rng);
+                    // half of the trials stream the sets with repeated items (right away, and spread)
+                    if rng.random_range(0..2) == 0 && !a.is_empty() && !b.is_empty() {
+                        for i in 0..a.len().min(200) / 3 + 1 {
+                            let x = a[i];
+                            a.insert(i + 1, x);
+                        }
+                        for _ in 0..b.len().min(200) / 3 + 1 {
+                            let x = b[rng.random_range(0..b.len())];
+                            let p = rng.random_range(0..=b.len());
+                            b.insert(p, x);
+                        }
+                    }
                     let (ba, bb) = if reuse {
                         let mut sk = make_usk(kind, m);
                         let njunk = if rng.random_range(0..2) == 0 { 2 * m + 5 } else { 1 };
